@@ -441,6 +441,17 @@ func replayCallGraph(n *Native, job *Job, v *Violation) (ReplayResult, bool) {
 	args := append([]string{"./a.rb"}, strings.Fields(v.Witness["flags"])...)
 	out, _, _ := n.RunTi(map[string]string{"a.rb": conc}, args, nativeConfigFor(n, job, src))
 	v.Witness["native-program"] = conc
+	if l, ok := v.Witness[v.ID+".line"]; ok {
+		return ReplayResult{Cmd: "ti " + strings.Join(args, " "), Reproduced: !hasLine(out, l, ""), Observed: fmt.Sprintf("expected a line %q in %q", l, tail(out, 900))}, true
+	}
+	if l, ok := v.Witness[v.ID+".noline"]; ok {
+		return ReplayResult{Cmd: "ti " + strings.Join(args, " "), Reproduced: hasLine(out, l, ""), Observed: fmt.Sprintf("expected no line %q in %q", l, tail(out, 900))}, true
+	}
+	if c, ok := v.Witness[v.ID+".count"]; ok {
+		var k int
+		fmt.Sscanf(c, "%d", &k)
+		return ReplayResult{Cmd: "ti " + strings.Join(args, " "), Reproduced: strings.Count(out, "  - total callers: 1\n") != k, Observed: fmt.Sprintf("expected %d sections with one caller in %q", k, tail(out, 900))}, true
+	}
 	want := "  - total callers: 1"
 	if k := v.Witness["C24.sites"]; k != "" {
 		want = "  - total callers: " + k
